@@ -47,7 +47,7 @@ REPL_FIELDS = ["year", "month", "day", "hour", "minute", "second", "microsecond"
 LEAN_TY = {"Int": "Int", "OptInt": "Option Int", "Bool": "Bool", "RD": "RD", "Temporal": "RDM.Temporal", "TD": "Int",
            "OptWd": "Option (Int × Option Int)", "Wd": "(Int × Option Int)", "OptWdArg": "Option RDM.WdArg",
            "Repl": "RDPy.Repl", "Kw": "RDM.Kw", "CmpOp": "RDPy.CmpOp", "OptPair": "Option (Int × Int)",
-           "HashKey": "Option (Int × Int) × List Int × List (Option Int)"}
+           "HashKey": "List RDM.HashElt"}
 RESERVED = {"end", "from", "at", "fun", "do", "then", "else", "if", "open", "in", "let", "have", "show", "by", "match"}
 
 
@@ -317,12 +317,13 @@ class Tr:
                 return self.bool_of(self.isinstance_(e, pre)), "Bool"
             if n == "hash" and len(e.args) == 1 and isinstance(e.args[0], ast.Tuple):
                 parts = [self.E(x, pre) for x in e.args[0].elts]
-                wd = [t for t, ty in parts if ty in ("OptPair", "None")]
-                ints = [t for t, ty in parts if ty == "Int"]
-                opts = [t for t, ty in parts if ty == "OptInt"]
-                if len(wd) != 1 or len(wd) + len(ints) + len(opts) != len(parts) or parts[0][1] not in ("OptPair", "None"):
-                    raise Untranslatable("hash() of this tuple")
-                return "(%s, [%s], [%s])" % (wd[0], ", ".join(ints), ", ".join(opts)), "HashKey"
+                elts = []
+                for t, ty in parts:                      # element by element, in the order of the source
+                    if ty in ("OptPair", "None") and not elts: elts.append("RDM.HashElt.wd %s" % t)
+                    elif ty == "Int": elts.append("RDM.HashElt.int %s" % t)
+                    elif ty == "OptInt": elts.append("RDM.HashElt.opt %s" % t)
+                    else: raise Untranslatable("hash() of a tuple with a %s element" % ty)
+                return "[%s]" % ", ".join(elts), "HashKey"
             if n in self.types and self.types[n] == "CmpOp" and len(e.args) == 2:
                 a, _ = self.E(e.args[0], pre); b, _ = self.E(e.args[1], pre)
                 t = self.fresh("c")
